@@ -360,6 +360,15 @@ def streamIsEntries (es : List (Instant × GoVal)) (stream : Bytes) : Bool :=
     (renderList os) == want
   | _ => false
 
+/-- number of complete msgpack values that make up `b` exactly (`none`: `b` is not such a run) -/
+def countValues : Nat → Bytes → Option Nat
+  | 0, _ => none
+  | f+1, b =>
+    if b.isEmpty then some 0
+    else match parse b with
+      | some (_, r) => (countValues f r).map (· + 1)
+      | none => none
+
 /-- constructor / packer histories -/
 def opHIST (op : String) (args obs : List String) : Option DecOut :=
   let (main, chg, inchg) := splitHist obs
@@ -443,7 +452,15 @@ def opHIST (op : String) (args obs : List String) : Option DecOut :=
       let (es, okAll) := unmarshalPacked b
       let m := s!"{renderEntries es} left=0 {if okAll then "ok" else "err"}"
       let go := " ".intercalate main
-      mk (if m == go then none else some s!"model=[{m}] go=[{go}]") [] (if okAll then "ok" else "err")
+      -- oracle from the specification parser alone: success means the stream is exactly a run of complete
+      -- values, one per returned entry
+      let goOk := main.getLast? == some "ok"
+      let goCount := ((main.headD "").splitOn "[").headD "" |>.toNat?
+      let specN := countValues (b.length + 1) b
+      let f13 := if goOk && (specN.isNone || specN != goCount) then
+          ["C13 UnmarshalPacked reported success although the stream is not exactly one complete value per returned entry",
+           "C03 UnmarshalPacked reported success on a stream that is not a run of complete entries"] else []
+      mk (if m == go then none else some s!"model=[{m}] go=[{go}]") f13 (if okAll then "ok" else "err")
   | "MM", _ => mk none [] "-"
   | "GCH", [hx] =>
     match opCHUNK ["h", hx] main with
@@ -481,6 +498,7 @@ def opCIDS (args obs : List String) : Option DecOut := do
         (corr ++ c1 ++ (if after == before then [] else [s!"{k}: options changed without a call"]),
          fails ++ (if finId == "-" || finId == "" then [] else [s!"C12 {k}: a message nobody assigned an id to carries {finId}"]), gen)
       else
+        -- act "x": the random source failed once before the id was drawn; afterwards the message is like any other
         let preset : Bytes := if act.startsWith "p" then (parseHex (act.drop 1).toString).getD [] else []
         let opts0 : Option Options := if preset.isEmpty then base else some { (base.getD {}) with chunk := preset }
         let draw := (b64dec id).getD []
